@@ -330,24 +330,32 @@ def check_property(prop, spec, tier, seed, replay=None):
         runs = new
         seed = rp.get("seed", seed)
 
-    # ---- build (serial per distinct (engine, variant); cargo parallelises inside)
-    built = set()
-    build_log = []
+    # ---- build: one cargo invocation per variant with every engine it needs
+    by_variant = {}
     for r in runs:
-        key = (r.engine, "release" if r.variant == "memcheck" else r.variant)
-        if key in built:
-            continue
-        built.add(key)
-        argv, env = build_cmd(r.engine, r.variant)
-        t0 = time.time()
-        p = subprocess.run(argv, cwd=HARNESS, env=env, stdout=subprocess.PIPE, stderr=subprocess.STDOUT)
-        dt = time.time() - t0
-        build_log.append({"engine": r.engine, "variant": r.variant, "secs": round(dt, 1), "rc": p.returncode})
-        if p.returncode != 0:
-            txt = p.stdout.decode("utf-8", "replace")
-            # a no-op miri run exits 0; anything else is a build problem
-            errs = [l for l in txt.splitlines() if l.startswith("error")][:5]
-            inconclusive.append(f"build failed for {r.engine}/{r.variant}: {' | '.join(errs) or txt[-400:]}")
+        v = "release" if r.variant == "memcheck" else ("fhex-release" if r.variant == "fhex-memcheck" else r.variant)
+        by_variant.setdefault(v, [])
+        if r.engine not in by_variant[v]:
+            by_variant[v].append(r.engine)
+    build_log = []
+    for v, engines in by_variant.items():
+        if v in ("miri", "miri-sb"):
+            groups = [[e] for e in engines]  # cargo miri run takes one binary
+        else:
+            groups = [engines]
+        for g in groups:
+            argv, env = build_cmd(g[0], v)
+            for extra in g[1:]:
+                i = argv.index("--bin")
+                argv[i:i] = ["--bin", extra]
+            t0 = time.time()
+            p = subprocess.run(argv, cwd=HARNESS, env=env, stdout=subprocess.PIPE, stderr=subprocess.STDOUT)
+            dt = time.time() - t0
+            build_log.append({"engines": g, "variant": v, "secs": round(dt, 1), "rc": p.returncode})
+            if p.returncode != 0:
+                txt = p.stdout.decode("utf-8", "replace")
+                errs = [l for l in txt.splitlines() if l.startswith("error")][:5]
+                inconclusive.append(f"build failed for {','.join(g)}/{v}: {' | '.join(errs) or txt[-400:]}")
     if inconclusive:
         return finish(prop, spec, tier, seed, [], [], inconclusive, notes, build_log, t_start, {})
 
@@ -510,7 +518,14 @@ def finish(prop, spec, tier, seed, violations, advisory, inconclusive, notes, bu
         for k, v in a["counters"].items():
             if not k.startswith("viol:"):
                 counters_all[k] = counters_all.get(k, 0) + v
-    distinct_nontrivial = max([a["nontrivial"] for a in agg.values()], default=0)
+    # the same case descriptors are replayed under several detectors (variants of one
+    # engine): count them once (max over that engine's runs); different engines
+    # enumerate disjoint cases: sum over engines
+    per_engine = {}
+    for label, a in agg.items():
+        eng = label.split("/")[0]
+        per_engine[eng] = max(per_engine.get(eng, 0), a["nontrivial"])
+    distinct_nontrivial = sum(per_engine.values())
     coverage = {
         "evaluations": total_cases,
         # the same case descriptor is replayed under several detectors; count distinct
